@@ -110,6 +110,26 @@
 //   - every helper function / function literal is tagged `@[gen_unfold]` (lean/OW/Gen/Attr.lean): the tie proofs unfold "whatever
 //     helpers the source has now" with `simp only [gen_unfold]` instead of naming them.
 //
+// NORMALISATIONS AND FURTHER FORMS (work package R3; the equalities used are Go's own definitions of the constructs, integer index
+// arithmetic — never float arithmetic — and liveness facts that the generated text itself would refute if they were wrong):
+//   - ASSIGNED BEFORE READ (stmts.go, firstWriteInLoop): a float64 / bool / int variable declared before the time loop that the loop body
+//     assigns at its top level (plain `=`, right-hand side not mentioning it) before anything in the loop has read it, and that the
+//     statements after the loop do not mention, is a local of `step` — NOT a hidden state (gr4j's Ps, Es, Pr, Perc). Declaring such a
+//     variable inside the loop gives the same text.
+//   - HELPERS THAT WRITE INTO A []float64 PARAMETER (inplace.go): the definition returns the final value of every such parameter after
+//     the Go results, the call re-binds the argument variable (`f(q, u, n, c)` ↦ `let callN := f q u n c; let q := callN`); the
+//     argument must be a slice variable no other argument mentions; a helper may not return its own slice parameter.
+//   - `for i := range xs` / `for i, v := range xs` over a slice variable (ranges.go) ↦ the three-clause loop they stand for
+//     (`forRange 0 (sliceLen xs) …`, `v := xs[i]` first); count-down loops before the time loop; `copy(dst[a:b], src[c:d])` ↦
+//     `sliceCopy` of the prelude; the body of an int-range loop may not assign its loop variable.
+//   - a loop that counts a constant number of times without using its counter (`for i := 0; i < 40; i++`, `for r := 40; r > 0; r--`)
+//     is `boundedLoop body N`; `return E` inside it, when the statement after the loop is `return E` (the same pure expressions), is
+//     the `break` it is rendered as.
+//   - a loop condition `i + e < b` (e loop-invariant) is `i < b - e` (on the integers; Go's int overflow is outside the model).
+//   - PROCEDURES THAT WRITE SERIES (inline.go): a call statement `f(args…)` of a function without results that takes series / the index
+//     vector (`writeDate(idx, d, m, y, date, …)`) is rendered as the statements of its body in place (reference parameters stand for the
+//     caller's variables, value parameters are new locals; no `return` except a trailing bare one; no recursion).
+//
 // Semantics the translation relies on (= Go's for this subset): operands are pure, so evaluation order is irrelevant
 // except for the association of float operations, which is the AST's (Go precedence, left-associative); every float64
 // operation rounds once (no fused multiply-add on amd64); assignments are emitted as shadowing `let`s in program order,
@@ -217,6 +237,7 @@ type world struct {
 	sliceUse     map[string]bool // table entries whose translation indexes a []float64
 	derivedUse   map[string]bool // table entries whose translation renders data.AddToFloat64Array / CopyFrom on a temporary series
 	structs      map[string]*structInfo
+	writtenMemo  map[string][]int // function ↦ the indices of the []float64 parameters it writes into (inplace.go)
 }
 
 func (w *world) load(dir string) *pkg {
